@@ -467,14 +467,14 @@ func checkC14Accounting(r *core.Run, p *core.Program, a *analysis) {
 	} else {
 		got := e.summarize(f.Obj)
 		want := "set($_this.bytesRead+=uint64($byteCount)); if($_this.bytesRead>$_this.config.Rules.MaxDocumentSizeBytes){reject}"
-		r.Check("C14.usage-accounting", "cbe.Reader.markBytesRead", f.Decl.Pos(), got == want, "markBytesRead does `"+got+"`; required `"+want+"`")
+		r.Check("C14.usage-accounting", "cbe.Reader.markBytesRead", f.Decl.Pos(), sameEffect(got, []string{want}), "markBytesRead does `"+got+"`; required `"+want+"`")
 	}
 	if f := findFn(p, "cte", "Decoder.markBytesRead"); f == nil {
 		r.Undecided("C14.usage-accounting", "cte.Decoder.markBytesRead")
 	} else {
 		got := e.summarize(f.Obj)
 		want := "if(?pure:conv($byteCount)>$_this.config.Rules.MaxDocumentSizeBytes){reject}"
-		r.Check("C14.usage-accounting", "cte.Decoder.markBytesRead", f.Decl.Pos(), got == want, "markBytesRead does `"+got+"`; required `"+want+"`")
+		r.Check("C14.usage-accounting", "cte.Decoder.markBytesRead", f.Decl.Pos(), sameEffect(got, []string{want}), "markBytesRead does `"+got+"`; required `"+want+"`")
 	}
 	for _, name := range []string{"Decode", "DecodeDocument"} {
 		f := findFn(p, "cte", "Decoder."+name)
